@@ -143,6 +143,35 @@ func (c *Ctx) Case(id string, f func()) {
 	f()
 }
 
+// Setup runs a preparation step (creating the process's configuration, warming tables) as a monitored step: it is
+// logged as in flight, so that a hang, deadlock or crash inside it is attributed to it by the driver, but it is not a
+// case - it always runs, also when a single case is replayed. Inside a case it just runs f.
+func (c *Ctx) Setup(id string, f func()) {
+	c.mu.Lock()
+	nested := c.curCase != "" && !c.caseT0.IsZero()
+	if !nested {
+		c.curCase = id
+		c.caseT0 = time.Now()
+	}
+	c.mu.Unlock()
+	if nested {
+		f()
+		return
+	}
+	if c.progress != nil {
+		fmt.Fprintf(c.progress, "BEGIN %s\n", id)
+	}
+	defer func() {
+		c.mu.Lock()
+		c.caseT0 = time.Time{}
+		c.mu.Unlock()
+		if c.progress != nil {
+			fmt.Fprintf(c.progress, "END %s\n", id)
+		}
+	}()
+	f()
+}
+
 func trimStack(s string) string {
 	lines := strings.Split(s, "\n")
 	if len(lines) > 40 {
